@@ -142,3 +142,88 @@ Theorem C04_effect_visible_rel : forall (s s' : seq) (f : list msg -> list msg),
              Permutation (ev_abs (to_abs (f r))) (ev_rel (f r)) /\ dur_abs (to_abs (f r)) = dur_rel (f r).
 Proof. exact C04_main.C04_effect_visible_rel. Qed.
 Print Assumptions C04_effect_visible_rel.
+
+(* ================================================================ compound operations (Model/ScaleDown.v)
+   Extra imports needed at the top of Props/C04.v:
+     From Model Require Import ScaleDown.
+     From Proofs Require Import C04_hops.
+   Vocabulary (Proofs/C04_hops.v):
+     hop_wf h   the literal arguments of the compound operation h are well-formed: op_wf of every constituent
+                operation (HOp o / HFail o e: o; HSeq os: all of os; HScaleDown i k meta then_: all of then_) and, for
+                HScaleDown, 0 < k
+     hop_wf0 h  the same without the condition on k *)
+From Model Require Import ScaleDown.
+From Proofs Require Import C04_hops.
+
+(* scale(1/k, meta_sequence) on object i keeps the invariant of every object of the store: on success (object i gets
+   the new relative list and a stale absolute view) and on failure (only views of i / the meta object were refreshed),
+   for every kind of meta object (none, the receiver itself, another object, a missing object) *)
+Theorem C04_scale_down_inv : forall (st : store) (i : nat) (k : Z) (meta : option nat),
+  forallb inv_b st = true -> 0 < k -> forallb inv_b (fst (store_scale_down st i k meta)) = true.
+Proof. exact C04_hops.C04_scale_down_inv. Qed.
+Print Assumptions C04_scale_down_inv.
+
+(* ... in fact for EVERY integer k: with k <= 0 the model's grouping loop makes no progress and the call fails *)
+Theorem C04_scale_down_inv_any_k : forall (st : store) (i : nat) (k : Z) (meta : option nat),
+  forallb inv_b st = true -> forallb inv_b (fst (store_scale_down st i k meta)) = true.
+Proof. exact C04_hops.C04_scale_down_inv_any_k. Qed.
+Print Assumptions C04_scale_down_inv_any_k.
+
+(* EVERY compound operation (all 4 constructors of `hop`, including a compound that stops at its first error and a
+   call that raises after its state effect) keeps the invariant of every object of the store *)
+Theorem C04_hstep_inv : forall (st : store) (h : hop),
+  forallb inv_b st = true -> hop_wf h = true -> forallb inv_b (fst (hstep st h)) = true.
+Proof. exact C04_hops.C04_hstep_inv. Qed.
+Print Assumptions C04_hstep_inv.
+
+Theorem C04_hstep_inv_any_k : forall (st : store) (h : hop),
+  forallb inv_b st = true -> hop_wf0 h = true -> forallb inv_b (fst (hstep st h)) = true.
+Proof. exact C04_hops.C04_hstep_inv_any_k. Qed.
+Print Assumptions C04_hstep_inv_any_k.
+
+(* hence every finite history of compound operations, from any store satisfying the invariant / from the empty store *)
+Theorem C04_run_h_inv : forall (st : store) (hs : list hop),
+  forallb inv_b st = true -> forallb hop_wf hs = true -> forallb inv_b (fst (run_h st hs)) = true.
+Proof. exact C04_hops.C04_run_h_inv. Qed.
+Print Assumptions C04_run_h_inv.
+
+Theorem C04_run_h_inv_any_k : forall (st : store) (hs : list hop),
+  forallb inv_b st = true -> forallb hop_wf0 hs = true -> forallb inv_b (fst (run_h st hs)) = true.
+Proof. exact C04_hops.C04_run_h_inv_any_k. Qed.
+Print Assumptions C04_run_h_inv_any_k.
+
+Theorem C04_reachable_h : forall hs : list hop,
+  forallb hop_wf hs = true -> forallb inv_b (fst (run_h [] hs)) = true.
+Proof. exact C04_hops.C04_reachable_h. Qed.
+Print Assumptions C04_reachable_h.
+
+(* the statement of C04 in one piece for histories of compound operations (the alphabet the correspondence check
+   runs): every object of the final store is readable through both properties and the two lists agree *)
+Theorem C04_history_h : forall (hs : list hop) (i : nat) (s : seq),
+  forallb hop_wf hs = true -> nth_error (fst (run_h [] hs)) i = Some s ->
+  exists s1 a s2 r, get_abs s = Ok (s1, a) /\ get_rel s = Ok (s2, r) /\
+                    Permutation (ev_abs a) (ev_rel r) /\ dur_abs a = dur_rel r /\
+                    tsorted a = true /\ wfa a = true /\ wfr r = true.
+Proof. exact C04_hops.C04_history_h. Qed.
+Print Assumptions C04_history_h.
+
+Theorem C04_history_h_any_k : forall (hs : list hop) (i : nat) (s : seq),
+  forallb hop_wf0 hs = true -> nth_error (fst (run_h [] hs)) i = Some s ->
+  exists s1 a s2 r, get_abs s = Ok (s1, a) /\ get_rel s = Ok (s2, r) /\
+                    Permutation (ev_abs a) (ev_rel r) /\ dur_abs a = dur_rel r /\
+                    tsorted a = true /\ wfa a = true /\ wfr r = true.
+Proof. exact C04_hops.C04_history_h_any_k. Qed.
+Print Assumptions C04_history_h_any_k.
+
+(* histories of plain operations are the histories of compound operations built from HOp only *)
+Theorem C04_run_h_HOp : forall (ops : list op) (st : store), run_h st (map HOp ops) = run st ops.
+Proof. exact C04_hops.run_h_HOp. Qed.
+Print Assumptions C04_run_h_HOp.
+
+(* readability needs no assumption at all: after ANY history of compound operations (arbitrary, even ill-formed,
+   arguments; k <= 0; missing objects) no object has both views stale *)
+Theorem C04_readable_any_hops : forall (hs : list hop) (i : nat) (s : seq),
+  nth_error (fst (run_h [] hs)) i = Some s ->
+  (exists s1 a, get_abs s = Ok (s1, a)) /\ (exists s2 r, get_rel s = Ok (s2, r)).
+Proof. exact C04_hops.C04_readable_any_hops. Qed.
+Print Assumptions C04_readable_any_hops.
